@@ -32,6 +32,8 @@ EXTRA_FILES = ['FinVerif/Model/C08.lean', 'FinVerif/Spec/C08.lean', 'FinVerif/Le
 
 RULE = ('model functions: (forward x strike/forward in {0.4..2.5} x expiry in {1M..10Y} x discount factor) x (Black, shifted Black, Bachelier, SABR, shifted SABR) valued by the model class itself, call with put; '
         'HWTree.option_on_zcb on (curve shape x sigma x a incl. the SMALL clamp x expiry x bond maturity x strike around the forward price). '
+        'every cap/floor, swaption and Bermudan: calendar (6) x business-day rule (5) x date generation BACKWARD/FORWARD x whole / non-whole number of periods; '
+        'cap/floor last_fixing in {None, 0.0, negative, at / around the strike, curve level, large}. '
         'cap/floor: seed-chosen (curve kind x value date x start x tenor x frequency x day count x notional x strike '
         'ITM/ATM/OTM/zero x first fixing) x every model the product accepts (Black, shifted Black, Bachelier, SABR, shifted '
         'SABR, HW); every cap is valued together with its floor and with the independently built FRA strip. swaption: '
@@ -66,7 +68,8 @@ def load():
     from financepy.utils.date import Date
     from financepy.utils.frequency import FrequencyTypes, annual_frequency
     from financepy.utils.day_count import DayCountTypes, DayCount
-    from financepy.utils.calendar import CalendarTypes, BusDayAdjustTypes, DateGenRuleTypes
+    from financepy.utils.calendar import CalendarTypes, BusDayAdjustTypes, DateGenRuleTypes, Calendar
+    from financepy.utils.schedule import Schedule
     from financepy.utils.global_types import FinCapFloorTypes, SwapTypes, OptionTypes, FinExerciseTypes
     from financepy.utils.error import FinError
     from financepy.market.curves.discount_curve_flat import DiscountCurveFlat
@@ -139,9 +142,16 @@ def make_curve(rng, vd, kind):
         fras = [E.IborFRA(settle.add_tenor('6M'), '3M', fr, DT.ACT_360)]
         swaps = [E.IborSwap(settle, t, E.SwapTypes.PAY, base + 0.0015 * i + bumps[i], E.FrequencyTypes.SEMI_ANNUAL, fdc)
                  for i, t in enumerate(('1Y', '2Y', '3Y', '5Y', '7Y', '10Y', '15Y', '20Y'))]
-        with warnings.catch_warnings():
-            warnings.simplefilter('ignore')
-            crv = E.IborSingleCurve(vd, depos, fras, swaps)
+        try:
+            with warnings.catch_warnings():
+                warnings.simplefilter('ignore')
+                crv = E.IborSingleCurve(vd, depos, fras, swaps)
+        except E.FinError as e:
+            # the bootstrap's own input validation ("Swap coupons are not on the same date grid": on some valuation dates the
+            # adjusted coupon dates of the 1Y..20Y swaps do not nest) - a precondition of the curve class (C01), not of C08
+            if 'same date grid' not in str(e):
+                raise
+            return make_curve(rng, vd, 'sloped')
         desc = {'kind': 'ibor', 'deposits': dr, 'fra': fr, 'swap_base': base, 'swap_bumps': bumps, 'swap_dc': fdc.name}
         return desc, crv
     raise ValueError(kind)
@@ -248,14 +258,49 @@ def isda_vs_365(vd, dts):
     return max(abs(dc.year_frac(vd, d)[0] - (d - vd) / 365.0) for d in dts) if dts else 0.0
 
 
+# ------------------------------------------------------------------------------------------ schedule conventions
+CALS = ['WEEKEND', 'NONE', 'TARGET', 'UNITED_STATES', 'UNITED_KINGDOM', 'JAPAN']
+BDS = ['FOLLOWING', 'MODIFIED_FOLLOWING', 'PRECEDING', 'MODIFIED_PRECEDING', 'NONE']
+DGS = ['BACKWARD', 'FORWARD']
+
+
+def conv(case):
+    """(cal_type, bd_type, dg_type) of the contract; cases recorded before these were drawn have the library defaults."""
+    return (E.CalendarTypes[case.get('cal', 'WEEKEND')], E.BusDayAdjustTypes[case.get('bd', 'FOLLOWING')],
+            E.DateGenRuleTypes[case.get('dg', 'BACKWARD')])
+
+
+def gen_conv(rng):
+    """every member of the three enums the products accept is reachable; defaults and non-defaults about equally often"""
+    return {'cal': rng.choice(CALS[:1] * 3 + CALS[1:]), 'bd': rng.choice(BDS[:1] * 2 + BDS[1:]), 'dg': rng.choice(DGS)}
+
+
+def conv_kw(case):
+    cal, bd, dg = conv(case)
+    return dict(cal_type=cal, bd_type=bd, dg_type=dg)
+
+
 # ------------------------------------------------------------------------------------------ cap / floor
 def capfloor_objects(case):
     vd = date_of(case['value_dt'])
     start = date_of(case['start_dt'])
-    args = (start, case['tenor'])
+    args = (start, date_of(case['maturity_dt']) if case.get('maturity_dt') else case['tenor'])
     kw = dict(last_fixing=case.get('last_fixing'), freq_type=E.FrequencyTypes[case['freq']],
-              dc_type=E.DayCountTypes[case['dc']], notional=case['notional'])
+              dc_type=E.DayCountTypes[case['dc']], notional=case['notional'], **conv_kw(case))
     return vd, start, args, kw
+
+
+def capfloor_schedule(case):
+    """the caplet dates of the CONTRACT, built independently of the product object: the public Schedule class with the
+    contract's frequency, calendar, business-day rule and date-generation rule passed explicitly (a tenor is rolled to a
+    business day with the same calendar and rule, as the contract says)."""
+    cal, bd, dg = conv(case)
+    start = date_of(case['start_dt'])
+    if case.get('maturity_dt'):
+        mat = date_of(case['maturity_dt'])
+    else:
+        mat = E.Calendar(cal).adjust(start.add_tenor(case['tenor']), bd)
+    return list(E.Schedule(start, mat, E.FrequencyTypes[case['freq']], cal, bd, dg).adjusted_dts)
 
 
 def strip_reference(curve, dts, dc_type, K, N, last_fixing):
@@ -286,7 +331,13 @@ def oracle_capfloor(case, curve=None, collect=None):
         warnings.simplefilter('ignore')
         vc = float(cap.value(vd, curve, make_model(spec)))
         vf = float(flo.value(vd, curve, make_model(spec)))
-    dts = cap.capFloorLetDates
+    dts = capfloor_schedule(case)          # NOT the product's own dates: the contract's conventions, passed explicitly
+    for nm, obj in (('cap', cap), ('floor', flo)):
+        own = list(obj.capFloorLetDates)
+        if own != dts:
+            out.add('schedule', f'{nm}: caplet dates {[str(d) for d in own][:8]} differ from Schedule(start, maturity, {case["freq"]}, '
+                    f'{case.get("cal", "WEEKEND")}, {case.get("bd", "FOLLOWING")}, {case.get("dg", "BACKWARD")}) = {[str(d) for d in dts][:8]}')
+            return out
     rows = strip_reference(curve, dts, E.DayCountTypes[case['dc']], K, N, case.get('last_fixing'))
     strip = sum(r['pv'] for r in rows)
     scale = N * sum(r['alpha'] * r['df'] * max(abs(r['fwd']), K, 1e-4) for r in rows)
@@ -448,7 +499,7 @@ def oracle_capfloor_monotone(case, curve=None):
 # ------------------------------------------------------------------------------------------ swaptions
 def swaption_kw(case):
     return dict(notional=case['notional'], float_freq_type=E.FrequencyTypes[case['float_freq']],
-                float_dc_type=E.DayCountTypes[case['float_dc']])
+                float_dc_type=E.DayCountTypes[case['float_dc']], **conv_kw(case))
 
 
 def swaption_pair(case, K=None, spec=None, curve=None):
@@ -477,13 +528,42 @@ def fixed_leg_reference(case, curve, K):
     vd = date_of(case['value_dt'])
     ex, mat = date_of(case['exercise_dt']), date_of(case['maturity_dt'])
     ff, fdc = E.FrequencyTypes[case['fixed_freq']], E.DayCountTypes[case['fixed_dc']]
+    cal, bd, dg = conv(case)
     swp = E.IborSwap(ex, mat, E.SwapTypes.PAY, K, ff, fdc, case['notional'], 0.0, E.FrequencyTypes[case['float_freq']],
-                     E.DayCountTypes[case['float_dc']])
+                     E.DayCountTypes[case['float_dc']], cal, bd, dg)
     fl = swp.fixed_leg
     dc = E.DayCount(fdc)
     alphas = [dc.year_frac(a, b)[0] for a, b in zip(fl.start_accrued_dts, fl.end_accrued_dts)]
     pays = list(fl.payment_dts)
     return swp, alphas, pays
+
+
+def fixed_schedule(case):
+    """payment dates of the fixed leg of the CONTRACT from the public Schedule class, conventions passed explicitly"""
+    cal, bd, dg = conv(case)
+    ex, mat = date_of(case['exercise_dt']), date_of(case['maturity_dt'])
+    return list(E.Schedule(ex, mat, E.FrequencyTypes[case['fixed_freq']], cal, bd, dg).adjusted_dts)[1:]
+
+
+def check_underlying(out, nm, obj, case, A, vd, ex):
+    """the swap the option object built for itself must be the contract's swap: payment dates from an independent Schedule with
+    the contract's calendar / business-day / date-generation conventions, pv01 = the independently computed annuity"""
+    us = getattr(obj, 'underlying_swap', None)
+    ref = fixed_schedule(case)
+    if us is not None:
+        own = list(us.fixed_leg.payment_dts)
+        if own != ref:
+            out.add('schedule', f'{nm}: fixed-leg payment dates of the underlying swap {[str(d) for d in own][:6]}… differ from Schedule(exercise, maturity, '
+                    f'{case["fixed_freq"]}, {case.get("cal", "WEEKEND")}, {case.get("bd", "FOLLOWING")}, {case.get("dg", "BACKWARD")}) = {[str(d) for d in ref][:6]}…')
+            return
+    if obj.pv01 is not None and not close(float(obj.pv01), A, rtol=1e-10, atol=1e-14):
+        out.add('tables', f'{nm}.pv01 = {obj.pv01!r}, annuity of the fixed leg from the schedule = {A!r}', pv01=float(obj.pv01), annuity=A)
+    ct = getattr(obj, 'cpn_times', None)
+    if ct is not None and len(ct) > 1:
+        want = [(d - vd) / 365.0 for d in ref if d > ex]
+        got = [float(x) for x in ct][1:]
+        if len(got) != len(want) or any(abs(a - b) > 1e-12 for a, b in zip(got, want)):
+            out.add('tables', f'{nm}.cpn_times[1:] = {got[:6]}…, fixed-leg payment times after exercise of the contract = {want[:6]}…')
 
 
 def jamshidian_strike_sum(curve, spec, te, cps):
@@ -562,9 +642,11 @@ def oracle_swaption(case, curve=None, collect=None):
         out.add('finite', f'{mk}: payer {vp!r} / receiver {vr!r} not finite', payer=vp, receiver=vr)
         return out
     # ---- tables
+    if pays != fixed_schedule(case):
+        out.add('schedule', f'IborSwap built with the contract\'s conventions pays the fixed leg on {[str(d) for d in pays][:6]}…, Schedule gives '
+                f'{[str(d) for d in fixed_schedule(case)][:6]}…')
     for nm, o in (('payer', swp_p), ('receiver', swp_r)):
-        if not close(float(o.pv01), A, rtol=1e-10, atol=1e-14):
-            out.add('tables', f'{nm}.pv01 = {o.pv01!r}, annuity of the fixed leg from the schedule = {A!r}', pv01=float(o.pv01), annuity=A)
+        check_underlying(out, nm, o, case, A, vd, ex)
         if not close(float(o.fwd_swap_rate), s_ref, rtol=1e-9, atol=1e-13):
             out.add('tables', f'{nm}.fwd_swap_rate = {o.fwd_swap_rate!r}, IborSwap.swap_rate on the same dates = {s_ref!r}')
     if mk in BLACKLIKE:
@@ -806,6 +888,11 @@ def tree_swaption_overrun(o, vd, model):
     return idx if idx >= n + 2 else None
 
 # ------------------------------------------------------------------------------------------ bermudan
+def bermudan_kw(case):
+    return dict(float_freq_type=E.FrequencyTypes[case.get('float_freq', 'QUARTERLY')],
+                float_dc_type=E.DayCountTypes[case.get('float_dc', 'THIRTY_E_360')], **conv_kw(case))
+
+
 def oracle_bermudan(case, curve=None):
     out = Fails()
     vd = date_of(case['value_dt'])
@@ -816,13 +903,20 @@ def oracle_bermudan(case, curve=None):
     spec = case['model']
     mk = spec['kind']
     K, N = case['strike'], case['notional']
-    vals = {}
+    vals, objs = {}, {}
     for lt in (E.SwapTypes.PAY, E.SwapTypes.RECEIVE):
         for et in (E.FinExerciseTypes.EUROPEAN, E.FinExerciseTypes.BERMUDAN):
-            o = E.IborBermudanSwaption(settle, ex, mat, lt, et, K, ff, fdc, N)
+            o = E.IborBermudanSwaption(settle, ex, mat, lt, et, K, ff, fdc, N, **bermudan_kw(case))
             with warnings.catch_warnings():
                 warnings.simplefilter('ignore')
                 vals[(lt.name, et.name)] = float(o.value(vd, curve, make_model(spec)))
+            objs[(lt.name, et.name)] = o
+    _, alphas, pays = fixed_leg_reference(dict(case, float_freq=case.get('float_freq', 'QUARTERLY'), float_dc=case.get('float_dc', 'THIRTY_E_360')), curve, K)
+    A = sum(a * float(curve.df(d)) for a, d in zip(alphas, pays))
+    for key, o in objs.items():
+        check_underlying(out, 'bermudan ' + '/'.join(key), o, case, A, vd, ex)
+        if out:
+            break
     eps = 1e-9 * N
     for lt in ('PAY', 'RECEIVE'):
         e, b = vals[(lt, 'EUROPEAN')], vals[(lt, 'BERMUDAN')]
@@ -893,7 +987,7 @@ def _reuse_build(case):
     elif kind == 'bermudan':
         settle, ex, mat = date_of(case['settle_dt']), date_of(case['exercise_dt']), date_of(case['maturity_dt'])
         ff, fdc = E.FrequencyTypes[case['fixed_freq']], E.DayCountTypes[case['fixed_dc']]
-        objs = [E.IborBermudanSwaption(settle, ex, mat, lt, et, case['strike'], ff, fdc, case['notional'])
+        objs = [E.IborBermudanSwaption(settle, ex, mat, lt, et, case['strike'], ff, fdc, case['notional'], **bermudan_kw(case))
                 for lt in (E.SwapTypes.PAY, E.SwapTypes.RECEIVE) for et in (E.FinExerciseTypes.EUROPEAN, E.FinExerciseTypes.BERMUDAN)]
     else:
         raise ValueError(kind)
@@ -945,7 +1039,7 @@ def oracle_reuse(case):
     #      and have their own parity oracles with the listed time-axis findings)
     if mk in BLACKLIKE and all(math.isfinite(x) for x in vb):
         if kind == 'capfloor':
-            dts = used[0].capFloorLetDates
+            dts = capfloor_schedule(case)
             rows = strip_reference(cb, dts, E.DayCountTypes[case['dc']], case['strike'], N, case.get('last_fixing'))
             strip = sum(r['pv'] for r in rows)
             scale = N * sum(r['alpha'] * r['df'] * max(abs(r['fwd']), case['strike'], 1e-4) for r in rows)
@@ -1184,7 +1278,47 @@ def strikes_around(rng, f):
     return [f * m for m in (0.4, 0.75, 1.0, 1.3, 2.2)]
 
 
+def gen_last_fixing(rng, K, lvl):
+    """the contract's known first fixing over its whole range: absent, exactly zero, negative, at / around the strike, around the
+    curve level, large"""
+    u = rng.random()
+    if u < 0.35:
+        return None
+    if u < 0.50:
+        return 0.0
+    if u < 0.60:
+        return -rng.uniform(0.0001, 0.004)
+    if u < 0.68:
+        return float(K)
+    if u < 0.80:
+        return K * rng.uniform(0.8, 1.2) + rng.choice([0.0, 1e-6])
+    if u < 0.90:
+        return lvl * rng.uniform(0.5, 1.5)
+    return rng.uniform(0.15, 0.6)
+
+
+def cap_in_domain(case, curve):
+    """the lognormal models price a caplet only for a positive (shifted) forward - Black and SABR raise FinError otherwise, the
+    shifted ones take the log of a negative number: the model's own domain, not a defect.  Checked on the contract's schedule."""
+    spec = case['model']
+    mk = spec['kind']
+    if mk not in ('black', 'shifted', 'sabr', 'sabrshifted'):
+        return True
+    sh = spec.get('shift', 0.0) if mk == 'shifted' else 0.0
+    dts = capfloor_schedule(case)
+    rows = strip_reference(curve, dts, E.DayCountTypes[case['dc']], case['strike'], 1.0, None)
+    return all(r['fwd'] + sh > 1e-5 for r in rows[1:])
+
+
 def gen_capfloor(rng, ckind, mkind):
+    for _ in range(8):
+        case, curve = gen_capfloor_any(rng, ckind, mkind)
+        if cap_in_domain(case, curve):
+            break
+    return case, curve
+
+
+def gen_capfloor_any(rng, ckind, mkind):
     vd = gen_date(rng)
     desc, curve = make_curve(rng, vd, ckind)
     fwdstart = rng.random() < 0.2
@@ -1198,8 +1332,18 @@ def gen_capfloor(rng, ckind, mkind):
     K = rng.choice(ks + [0.0] if (mkind not in ('hw',) and ckind != 'negflat') else ks)
     case = {'value_dt': dmy(vd), 'start_dt': dmy(start), 'tenor': tenor, 'freq': freq, 'dc': rng.choice(DCS),
             'notional': rng.choice([1.0, 100.0, 1e6, 2.5e7]), 'strike': K, 'strikes': ks,
-            'last_fixing': (lvl * rng.uniform(0.5, 1.5) if rng.random() < 0.25 else None),
+            'last_fixing': gen_last_fixing(rng, K, lvl),
             'curve': desc, 'model': gen_model(rng, mkind, lvl), 'annuity': float(int(tenor[:-1]))}
+    case.update(gen_conv(rng))
+    # lengths that are not a whole number of periods (front stub under BACKWARD, back stub under FORWARD generation),
+    # given as a tenor string (rolled to a business day by the constructor) or as a maturity date (taken as it is)
+    if rng.random() < 0.4:
+        months = 12 * int(tenor[:-1]) + rng.choice([1, 2, 4, 5, 7])
+        if rng.random() < 0.5:
+            case['tenor'] = f'{months}M'
+        else:
+            case['maturity_dt'] = dmy(start.add_months(months))
+        case['annuity'] = months / 12.0
     if mkind in ('black', 'shifted', 'bachelier'):
         v = case['model']['vol']
         case['vols'] = [v * 0.25, v * 0.5, v, v * 2.0]
@@ -1213,10 +1357,13 @@ def gen_swaption(rng, ckind, mkind):
     ex = settle.add_months(rng.choice([3, 6, 12, 24, 36, 60]))
     tail = rng.choice([1, 2, 3, 5, 7, 10] if mkind in BLACKLIKE else [1, 2, 3, 5])
     mat = ex.add_years(tail)
+    if rng.random() < 0.4:                      # a swap length that is not a whole number of fixed (and floating) periods
+        mat = mat.add_months(rng.choice([1, 2, 3, 4, 5, 7, 9]))
     case = {'value_dt': dmy(vd), 'settle_dt': dmy(settle), 'exercise_dt': dmy(ex), 'maturity_dt': dmy(mat),
             'fixed_freq': rng.choice(['ANNUAL', 'SEMI_ANNUAL', 'QUARTERLY']), 'fixed_dc': rng.choice(DCS[:5]),
             'float_freq': rng.choice(['QUARTERLY', 'SEMI_ANNUAL']), 'float_dc': rng.choice(['THIRTY_E_360', 'ACT_360', 'ACT_365F']),
             'notional': rng.choice([1.0, 1e6, 5e7]), 'curve': desc}
+    case.update(gen_conv(rng))
     swp, alphas, pays = fixed_leg_reference(dict(case, strike=0.03), curve, 0.03)
     with warnings.catch_warnings():
         warnings.simplefilter('ignore')
@@ -1261,12 +1408,33 @@ def gen_bermudan(rng, ckind, mkind):
     desc, curve = make_curve(rng, vd, ckind)
     ex = vd.add_years(rng.choice([1, 2]))
     mat = ex.add_years(rng.choice([2, 3, 5]))
+    if rng.random() < 0.4:
+        mat = mat.add_months(rng.choice([1, 3, 4, 7, 9]))
     case = {'value_dt': dmy(vd), 'settle_dt': dmy(vd), 'exercise_dt': dmy(ex), 'maturity_dt': dmy(mat),
             'fixed_freq': rng.choice(['ANNUAL', 'SEMI_ANNUAL']), 'fixed_dc': rng.choice(['ACT_365F', 'THIRTY_E_360', 'ACT_360']),
             'float_freq': 'QUARTERLY', 'float_dc': 'THIRTY_E_360', 'notional': 1e6, 'curve': desc}
+    case.update(gen_conv(rng))
     lvl = level_of(curve, vd, 4)
     case.update({'strike': lvl * rng.choice([0.7, 1.0, 1.3]), 'model': gen_model(rng, mkind, lvl)})
     return case, curve
+
+
+def bump_desc(desc, rng):
+    """curve B of a bump-and-reprice: the same curve kind, the same pillar grid, other discount factors"""
+    b = rng.choice([-1.0, 1.0]) * rng.uniform(0.001, 0.01)
+    d = json.loads(json.dumps(desc))
+    k = d['kind']
+    if k == 'flat':
+        d['rate'] = max(d['rate'] + b, 0.0005)
+    elif k == 'negflat':
+        d['rate'] = d['rate'] - abs(b) * 0.1
+    elif k == 'sloped':
+        d['dfs'] = [x * math.exp(-abs(b) * n / 365.0) for x, n in zip(d['dfs'], d['pillar_days'])]
+    else:
+        d['deposits'] = [x + abs(b) for x in d['deposits']]
+        d['fra'] += abs(b)
+        d['swap_base'] += abs(b)
+    return d
 
 
 def gen_reuse(rng, product, mkind):
@@ -1287,7 +1455,10 @@ def gen_reuse(rng, product, mkind):
     vdo = vda.add_days(-shift)
     desc_o, _ = make_curve(rng, vdo, rng.choice(['flat', 'sloped', 'ibor']))
     case['product'] = product
-    if rng.random() < 0.5:
+    if rng.random() < 0.4:
+        # bump-and-reprice: the same date, the same pillar grid, other discount factors (the commonest re-use of one object)
+        case['value_dt_b'], case['curve_b'] = case['value_dt'], bump_desc(case['curve'], rng)
+    elif rng.random() < 0.5:
         case['value_dt_b'], case['curve_b'] = dmy(vdo), desc_o                       # second valuation: other curve (earlier date)
     else:
         case['value_dt_b'], case['curve_b'] = case['value_dt'], case['curve']        # second valuation back on the contract's own date
@@ -1350,13 +1521,14 @@ def capfloor_op(case, got):
                 extra[0] = float(model.black_vol(f, kk, te))
             if mk == 'hw':
                 extra[1], extra[2] = P365(curve, te), P365(curve, tm)
-        f1 = case['last_fixing'] if (i == 1 and case.get('last_fixing') is not None) else f
-        per += [r['alpha'], f1, r['df'], te, tm] + extra
+        per += [r['alpha'], f, r['df'], te, tm] + extra
     if mk in ('sabr', 'sabrshifted'):
         code, pars = (4 if mk == 'sabr' else 5), [0, 0, 0, 0, 0]
     else:
         code, pars = model_params(spec)
-    return f'CAPFLOOR {code} {n - 1} ' + fl(pars + [K, N] + per)
+    lf = case.get('last_fixing')
+    # the contract's last_fixing is an argument of the op: `None` -> (0, 0), a number x (0.0 included) -> (1, x); the model applies it
+    return f'CAPFLOOR {code} {n - 1} ' + fl(pars + [K, N] + ([0.0, 0.0] if lf is None else [1.0, lf]) + per)
 
 
 def swaption_op(case, got):
@@ -1468,6 +1640,11 @@ def run(ctx):
                 continue
             report(ctx, 'capfloor', case, fails)
             hist[f'capfloor/{mkind}/{ckind}'] = hist.get(f'capfloor/{mkind}/{ckind}', 0) + 1
+            lf = case.get('last_fixing')
+            fk = 'none' if lf is None else 'zero' if lf == 0.0 else 'negative' if lf < 0 else 'at-strike' if lf == case['strike'] else 'positive'
+            for key in (f'capfloor-last-fixing/{fk}', f'capfloor-conv/{case["dg"]}/{"stub" if (case.get("maturity_dt") or case["tenor"].endswith("M")) else "whole"}',
+                        f'conv-cal/{case["cal"]}', f'conv-bd/{case["bd"]}'):
+                hist[key] = hist.get(key, 0) + 1
             ncl = 6 + 4 * (len(got.get('dts', [])) - 1)
             ctx.count('capfloor-oracles/' + mkind, ncl, ncl if nontrivial(case, case['strikes'][2]) else 0,
                       sample={'model': case['model'], 'curve': ckind, 'tenor': case['tenor'], 'freq': case['freq'], 'dc': case['dc'],
@@ -1502,6 +1679,9 @@ def run(ctx):
                 continue
             report(ctx, 'swaption', case, fails)
             hist[f'swaption/{mkind}/{ckind}'] = hist.get(f'swaption/{mkind}/{ckind}', 0) + 1
+            whole = (case['maturity_dt'][1] == case['exercise_dt'][1])
+            for key in (f'swaption-conv/{case["dg"]}/{"whole" if whole else "stub"}', f'conv-cal/{case["cal"]}', f'conv-bd/{case["bd"]}'):
+                hist[key] = hist.get(key, 0) + 1
             ctx.count('swaption-oracles/' + mkind, 9, 9 if nontrivial(case, case['fwd']) else 0,
                       sample={'model': case['model'], 'curve': ckind, 'exercise': case['exercise_dt'], 'maturity': case['maturity_dt'],
                               'strike': case['strike'], 'fwd': case['fwd'], 'payer': got.get('vp'), 'receiver': got.get('vr')})
